@@ -170,7 +170,7 @@ fn gen_instance(rng: &mut SplitMix64) -> InstSpec {
                 7 => Drive::PollThenCount,
                 8 => Drive::PollThenLast,
                 0 => Drive::Nth0,
-                1 => Drive::Fold,
+                1 => if rng.chance(0.3) { Drive::PollThenWalk(rng.below(5) as u8) } else { Drive::Walk(rng.below(5) as u8) },
                 2 => Drive::PollThenCollect,
                 3 => Drive::NthSkip(rng.range(1, 9) as u8),
                 4 => Drive::Count,
